@@ -227,11 +227,11 @@ Theorem gfx_state_ok g : 0 <= gw g -> 0 <= gh g ->
 Proof.
   intros Hw Hh. unfold gfx_state_image_loop, gfx_state_at.
   destruct (Z.eqb_spec (gtype g) 0) as [E0|N0].
-  { destruct (to_image_ok true _ (mono_ok_create (gw g) (gh g) (gdata g) Hw Hh)) as (r & E & A & B & C).
+  { destruct (to_image_ok true _ (mono_ok_create (gw g) (gh g) (pad_mono (gw g) (gh g) (gdata g)) Hw Hh)) as (r & E & A & B & C).
     rewrite E. exists (Some r). split; [reflexivity|]. split; [auto|].
-    assert (GW : gW (ig (fst (create_from_bytes (gw g) (gh g) (gdata g)))) = gw g)
+    assert (GW : gW (ig (fst (create_from_bytes (gw g) (gh g) (pad_mono (gw g) (gh g) (gdata g))))) = gw g)
       by (unfold create_from_bytes; destruct (_ >? _); reflexivity).
-    assert (GH : gH (ig (fst (create_from_bytes (gw g) (gh g) (gdata g)))) = gh g)
+    assert (GH : gH (ig (fst (create_from_bytes (gw g) (gh g) (pad_mono (gw g) (gh g) (gdata g))))) = gh g)
       by (unfold create_from_bytes; destruct (_ >? _); reflexivity).
     rewrite GW in *. rewrite GH in *. auto. }
   destruct (Z.eqb_spec (gtype g) 1) as [E1|N1].
